@@ -117,6 +117,45 @@ pub fn run_world_t(plan: &Rc<Plan>) -> Result<History, String> {
         let _wr = cuc.filter_run((), |_, _, _| true).await;
         ended2.set(true);
     };
+    // The helper that outlives callbacks (`Plan.late_logs`): polled next to the pipeline, it takes the
+    // detained spans one by one, waits a little (simulated time), logs inside the span and lets it close.
+    let fut = {
+        let core = Rc::clone(&core);
+        let ctx = Rc::clone(&ctx);
+        let ended = Rc::clone(&ended);
+        let mut current: Option<(std::pin::Pin<Box<dyn std::future::Future<Output = ()>>>, tracing::Span, usize, bool)> = None;
+        let helper = std::future::poll_fn(move |cx| {
+            loop {
+                if let Some((sleep, ..)) = current.as_mut() {
+                    if sleep.as_mut().poll(cx).is_pending() {
+                        return std::task::Poll::Pending;
+                    }
+                    let (_, span, idx, via_thread) = current.take().expect("checked");
+                    core.stats.borrow_mut().late_logs += 1;
+                    world::emit_late(span, idx, via_thread);
+                    continue;
+                }
+                let next = ctx.detained.borrow_mut().pop_front();
+                match next {
+                    Some((span, idx)) => {
+                        let (d, via_thread) = {
+                            let mut r = core.rng.borrow_mut();
+                            (if r.chance(1, 3) { 0 } else { r.log_dur(3_000_000) }, r.chance(1, 2))
+                        };
+                        let sleep: std::pin::Pin<Box<dyn std::future::Future<Output = ()>>> =
+                            if d == 0 { Box::pin(core.yield_now()) } else { Box::pin(core.sleep(d, core::LABEL_WRITER)) };
+                        current = Some((sleep, span, idx, via_thread));
+                    }
+                    // (not woken by anybody while idle: polled whenever the pipeline next to it is)
+                    None if ended.get() => return std::task::Poll::Ready(()),
+                    None => return std::task::Poll::Pending,
+                }
+            }
+        });
+        async move {
+            futures::future::join(fut, helper).await;
+        }
+    };
     let root: std::pin::Pin<Box<dyn std::future::Future<Output = ()>>> = if outer_span {
         Box::pin(tracing::Instrument::instrument(fut, tracing::error_span!("suite", run = 1)))
     } else {
